@@ -587,4 +587,39 @@ def chkOutletOrPit (e : Env) (out : Array Nat) : Bool :=
 /-- coarse links stay inside the 3x3 neighbourhood -/
 def chkD8 (e : Env) (cds : Array Nat) : Bool := okD8 cds e.ncol
 
+/-- every outlet pixel is the missing value or a valid fine cell -/
+def chkOutValid (e : Env) (out : Array Nat) : Bool :=
+  allCells out.size fun c => out[c]! == e.ds.size || (decide (out[c]! < e.ds.size) && e.ds[out[c]!]! != e.ds.size)
+
+/-- the coarse network is well formed: sizes, links in range and inside the 3x3 neighbourhood, a link exactly where an
+outlet pixel is reported, outlet pixels valid (the conjunction the stages are proved to preserve, `LinksOK`) -/
+def chkLinksOK (e : Env) (cds out : Array Nat) : Bool :=
+  chkSizes e cds out && chkCdsRange cds && chkValidIff e cds out && chkD8 e cds && chkOutValid e out
+
+/-- missing pixels carry no upstream area above `minupa` (hypothesis of the totality theorems) -/
+def chkUpaNodata (e : Env) (minupa : Int) : Bool :=
+  allCells e.ds.size fun p => e.ds[p]! != e.ds.size || decide (e.upa[p]! ≤ minupa)
+
+/-- the flagged cells handed to a stage are coarse cells with an outlet pixel -/
+def chkFixOK (e : Env) (fix : List Nat) (out : Array Nat) : Bool :=
+  fix.all fun c => decide (c < e.ncell) && out[c]! != e.ds.size
+
+/-- pixels of valid fine cells lie in coarse cells of the raster (geometry of the environment) -/
+def chkEnvCells (e : Env) : Bool :=
+  allCells e.ds.size fun p => e.ds[p]! == e.ds.size || decide (e.cell p < e.ncell)
+
+/-- every valid fine cell is at a pit after `ds.size` steps (executable form of `ReachesPit`) -/
+def chkReach (ds : Array Nat) : Bool :=
+  allCells ds.size fun p => ds[p]! == ds.size || ds[iterA ds ds.size p]! == iterA ds ds.size p
+
+/-- `streams` has one entry per pixel and the entry of every in-range outlet pixel is its coarse cell (`SyncD`) -/
+def chkSync (e : Env) (streams : Array Int) (out : Array Nat) : Bool :=
+  streams.size == e.ds.size &&
+    allCells out.size fun c => !decide (out[c]! < e.ds.size) || streams[out[c]!]! == Int.ofNat c
+
+/-- the reported outlet pixels are pairwise distinct -/
+def chkDistinct (e : Env) (out : Array Nat) : Bool :=
+  allCells out.size fun c => out[c]! == e.ds.size ||
+    allCells out.size fun c' => c == c' || out[c]! != out[c']!
+
 end Pf.C09ihu
